@@ -322,6 +322,18 @@ pub fn sharing_family(f: &mut dyn FnMut(G)) {
         E::Word(vec![lit("--path="), E::r("PATH")]),
         E::Word(vec![lit("--depth"), E::Opt(Box::new(lit("=1"))), E::Opt(Box::new(lit("k")))]),
     ];
+    // command bodies with comment lines and several lines (the function body is the text)
+    for c in ["# list\necho alpha\necho beta", "echo a # tail", "echo a\n# middle\necho b", "echo a; }; echo b; {"] {
+        f(call(E::Seq(vec![E::cmd(c), lit("t")])));
+        f(call(E::Seq(vec![E::Word(vec![lit("--k="), E::cmd(c)]), lit("t")])));
+    }
+    // a word with a placeholder, a word without, and a top-level placeholder (bash: a table a
+    // wrapper does not declare is read from the caller)
+    for (x, y) in [(E::Word(vec![lit("a"), alt(&["b", "c"])]), E::Word(vec![lit("d"), E::r("U")])), (E::Word(vec![lit("d"), E::r("U")]), E::Word(vec![lit("a"), alt(&["b", "c"])]))] {
+        f(call(E::Seq(vec![E::Alt(vec![x.clone(), y.clone()]), E::Alt(vec![E::r("V"), lit("zzz")])])));
+        f(call(E::Seq(vec![E::Alt(vec![E::r("V"), lit("zzz")]), E::Alt(vec![x.clone(), y.clone()])])));
+        f(call(E::Seq(vec![lit("s"), E::Alt(vec![x.clone(), y.clone()]), E::Opt(Box::new(E::r("V"))), lit("t")])));
+    }
     for x in &words2 {
         for y in &words2 {
             if x == y {
